@@ -726,3 +726,6 @@ m("x9-slice-exact-single-read", "C03", VM,
   "        src.read_exact_volatile(&mut self.get_slice(addr, count)?)",
   "        let len = self.read_volatile_from(addr, src, count)?;\n        if len != count {\n            return Err(Error::PartialBuffer {\n                expected: count,\n                completed: len,\n            });\n        }\n        Ok(())",
   "R3.6.slice_exact_form")
+# wrong twin of refactors/RF-mark-dirty-guarded-fast-path: the in-page offset is not reduced, so the subtraction can underflow
+m("x9-fast-path-sub-unreduced", "C07", AB, _MD,
+  "        if len != 0 && len <= self.page_size.get() - offset {\n            return self.set_bit(offset / self.page_size);\n        }\n" + _MD, "A4.unreviewed")
